@@ -83,7 +83,7 @@ func findAcceptLoops(w *World) []acceptLoop {
 	var out []acceptLoop
 	prog := w.SSA()
 	var fns []*ssa.Function
-	for fn := range allModuleFuncs(w, prog) {
+	for _, fn := range sortedModuleFuncs(w, prog) {
 		fns = append(fns, fn)
 	}
 	sort.Slice(fns, func(i, j int) bool { return fns[i].Pos() < fns[j].Pos() })
